@@ -445,7 +445,10 @@ class Gen:
         if c == "counter":
             if r.random() < 0.5:
                 return L.fn("counter", quals=[self.fresh("c")])
-            return L.fn("counter", L.term(r.choice([1, 2, 5])), quals=[self.fresh("c")])
+            # the increment is what the argument says - also 0 (the counter stays put), also a numeric cell
+            if strict_num and r.random() < 0.3:
+                return L.fn("counter", self.href(r.choice(strict_num)), quals=[self.fresh("c")])
+            return L.fn("counter", L.term(r.choice([0, 0, 1, 2, 5])), quals=[self.fresh("c")])
         if c == "push":
             return self.push()
         if c == "tally":
@@ -713,6 +716,15 @@ class Gen:
             # an error raised by what last() triggers: on a file that ends in a blank record only the last() components run
             # (Matcher._do_lasts), and what they raise is handled under the policy like an error on any other line
             comps.append(L.when(L.fn("last"), L.assign(L.var(self.fresh("x")), L.fn("mod", L.term(r.choice([5, 7])), L.term(0)))))
+        if "stateful" in self.groups and r.random() < 0.15:
+            # a counter whose increment is 0 on some or all lines: it stays where it is (the increment is what the argument says)
+            strict_num = self.cols({"num"}, strict=True)
+            arg = self.href(r.choice(strict_num)) if (strict_num and r.random() < 0.4) else L.term(0)
+            c = L.fn("counter", arg, quals=[self.fresh("c")])
+            if r.random() < 0.4:
+                cond = self.boolean(1)
+                c = L.when(self.href_any() if cond["k"] == "term" else cond, c)
+            comps.insert(r.randint(0, len(comps)), c)
         if "validity" in self.groups and r.random() < 0.3:
             # the verdict as of the current line, recorded line by line next to whatever fails the file: valid() is true until the
             # line on which the file fails, failed() from that line on
